@@ -33,7 +33,7 @@ fn key(s: &State) -> (u64, u64) {
     (h1.finish(), h2.finish())
 }
 
-const POOL: [&str; 15] = ["bound()", "dump", "ignore", "key = $", "by = f", "Foo", "\"lit\"", "reverse", "transparent", "bound(..)", "Clone", "bound(T: , ..)", "Cálculo", "ÑuAssign", "Sub"];
+const POOL: [&str; 18] = ["bound()", "dump", "ignore", "key = $", "by = f", "Foo", "\"lit\"", "reverse", "transparent", "bound(..)", "Clone", "bound(T: , ..)", "Cálculo", "ÑuAssign", "Sub", "key = $!()", "key = $::f()", "key = $ { }"];
 /// syntactically valid types put in place of a field type, an impl's self type or the operator's Rhs argument
 const TYPE_POOL: [&str; 16] = ["dyn Tr + Send", "dyn Tr", "[u8]", "(u8, X)", "&'a mut T", "fn(u8) -> u8", "*const T", "<T as Tr>::A", "Self", "!", "[T; N]", "Option<Self>", "&dyn Tr", "Box<dyn Tr + Send>", "m!(T)", "(dyn Tr + Send)"];
 const HELPERS: [&str; 8] = ["derive_ex", "debug", "default", "ord", "partial_ord", "eq", "partial_eq", "hash"];
@@ -220,8 +220,28 @@ fn generics_mutations(g: &syn::Generics) -> Vec<(String, syn::Generics)> {
     if !g.params.is_empty() {
         out.push(("delete-generics".into(), syn::Generics::default()));
     }
+    // whole parameter lists / where-clauses from pools of valid but unusual forms
+    for t in GENERICS_POOL {
+        if let Ok(ng) = syn::parse_str::<syn::Generics>(t) {
+            let mut x = g.clone();
+            x.lt_token = ng.lt_token;
+            x.gt_token = ng.gt_token;
+            x.params = ng.params;
+            out.push((format!("generics-{t}"), x));
+        }
+    }
+    for t in WHERE_POOL {
+        if let Ok(w) = syn::parse_str::<syn::WhereClause>(t) {
+            let mut x = g.clone();
+            x.where_clause = Some(w);
+            out.push((format!("where-{t}"), x));
+        }
+    }
     out
 }
+
+const GENERICS_POOL: [&str; 5] = ["<'a, 'b: 'a, T>", "<#[cfg(all())] 'a, T>", "<T: ?Sized + Tr<'static>, const N: usize = 3>", "<'a, T: 'a + for<'x> Tr<'x>>", "<'a: 'static, 'b: 'a + 'static, const N: usize>"];
+const WHERE_POOL: [&str; 4] = ["where for<'x> Self: Tr<'x>", "where T: Tr, Self: Sized", "where for<'x> &'x Self: Tr<'x>, [u8; 2]: Sized", "where 'a: 'static, T: 'a"];
 
 const OTHER_ITEMS: [&str; 8] = ["fn f() {}", "trait Tr {}", "union U { a: u8, b: u16 }", "mod m {}", "const C: u8 = 0;", "type A = u8;", "static S: u8 = 0;", "impl X { fn f(&self) {} }"];
 
@@ -476,6 +496,69 @@ pub fn judge(s: &State) -> Verdict {
     }
 }
 
+fn inflight_dir() -> Option<std::path::PathBuf> {
+    std::env::var("DX_C16_INFLIGHT").ok().map(std::path::PathBuf::from)
+}
+
+/// The expander runs inside this process: an expansion that overflows the stack or aborts takes the explorer
+/// with it. `supervise` therefore runs the exploration in a child process; if the child dies abnormally, each
+/// state that was in progress is re-judged alone in a process of its own, and the ones that die again are
+/// reported as violations (`expansion-crashes-the-process`) with a replay file.
+pub fn supervise(args: &[String], tier: crate::report::Tier, replay: Option<&String>) -> ! {
+    use std::process::Command;
+    let exe = std::env::current_exe().unwrap_or_else(|e| crate::report::machinery(&format!("current_exe: {e}")));
+    let dir = crate::report::work().join(format!("c16-inflight-{}", std::process::id()));
+    let _ = std::fs::remove_dir_all(&dir);
+    std::fs::create_dir_all(&dir).unwrap_or_else(|e| crate::report::machinery(&format!("cannot create {}: {e}", dir.display())));
+    let st = Command::new(&exe).args(args).env("DX_C16_WORKER", "1").env("DX_C16_INFLIGHT", &dir).status().unwrap_or_else(|e| crate::report::machinery(&format!("cannot start the C16 worker: {e}")));
+    if let Some(c) = st.code() {
+        if (0..=2).contains(&c) {
+            let _ = std::fs::remove_dir_all(&dir);
+            std::process::exit(c);
+        }
+    }
+    // abnormal end: which state did it?
+    let mut rep = Report::new("C16", tier);
+    rep.replay_mode = replay.is_some();
+    rep.rule = "supervisor: the exploring process ended abnormally; every state that was in progress was re-judged in a process of its own".into();
+    let mut candidates: Vec<std::path::PathBuf> = std::fs::read_dir(&dir).map(|d| d.filter_map(|e| e.ok().map(|e| e.path())).collect()).unwrap_or_default();
+    candidates.sort();
+    // keep the current record of each worker only
+    for f in &candidates {
+        if let Ok(t) = std::fs::read_to_string(f) {
+            let _ = std::fs::write(f, t.lines().next().unwrap_or(""));
+        }
+    }
+    if let Some(r) = replay {
+        candidates = vec![std::path::PathBuf::from(r)];
+    }
+    let mut culprits = 0;
+    for f in &candidates {
+        let alone = if replay.is_some() { None } else { Command::new(&exe).args(["C16", "--replay", &f.to_string_lossy()]).env("DX_C16_WORKER", "1").env("DX_NO_EVIDENCE", "1").stdout(std::process::Stdio::null()).stderr(std::process::Stdio::null()).status().ok() };
+        let died = match (&alone, replay) {
+            (_, Some(_)) => true, // the replayed state was the only one in the child that died
+            (Some(a), _) => !matches!(a.code(), Some(0..=2)),
+            (None, _) => false,
+        };
+        if !died {
+            continue;
+        }
+        let v: serde_json::Value = std::fs::read_to_string(f).ok().and_then(|t| serde_json::from_str(t.lines().next().unwrap_or("")).ok().or_else(|| serde_json::from_str(&t).ok())).unwrap_or(json!({}));
+        let case = v["case"].clone();
+        culprits += 1;
+        rep.stats.states += 1;
+        rep.evaluations += 1;
+        let mut atoms = BTreeSet::new();
+        atoms.insert(format!("entry={}", case["entry"].as_str().unwrap_or("")));
+        rep.violation(Violation { symptom: "expansion-crashes-the-process".into(), atoms, what: format!("[{}] #[derive_ex({})] {} via {}: the process running the expansion died ({:?}) - stack overflow or abort inside the expander", case["reached_via"].as_str().unwrap_or(""), case["attr"].as_str().unwrap_or(""), case["item"].as_str().unwrap_or("").chars().take(160).collect::<String>(), case["entry"].as_str().unwrap_or(""), st), detail: case, standalone: None });
+    }
+    let _ = std::fs::remove_dir_all(&dir);
+    if culprits == 0 {
+        crate::report::machinery(&format!("the C16 worker ended abnormally ({st:?}) and no state in progress reproduces it alone"));
+    }
+    rep.finish()
+}
+
 /// Judge every state of a level on all cores under a watchdog: a state whose two expansions
 /// take longer than `DX_C16_STATE_TIMEOUT` seconds (default 60) is reported as a violation
 /// (expansion does not terminate) and the run ends with exit 1 - the hung thread cannot be joined.
@@ -493,7 +576,9 @@ fn judge_all(frontier: &[State], progress: &AtomicU64) -> Vec<Verdict> {
     std::thread::scope(|sc| {
         for w in 0..nthreads {
             let (next, current, out) = (&next, &current, &out);
-            sc.spawn(move || loop {
+            sc.spawn(move || {
+                let inflight = inflight_dir().and_then(|d| std::fs::OpenOptions::new().create(true).write(true).open(d.join(format!("w{w}.json"))).ok());
+                loop {
                 let i = next.fetch_add(1, Ordering::Relaxed);
                 if i >= n {
                     current[w].0.store(0, Ordering::Relaxed);
@@ -501,10 +586,21 @@ fn judge_all(frontier: &[State], progress: &AtomicU64) -> Vec<Verdict> {
                 }
                 current[w].1.store(t0.elapsed().as_millis() as u64, Ordering::Relaxed);
                 current[w].0.store(i + 1, Ordering::Relaxed);
+                // under the supervisor: note the state in progress, so that a crash of the whole process (stack
+                // overflow, abort) can be attributed to it
+                if let Some(f) = &inflight {
+                    use std::os::unix::fs::FileExt;
+                    let s = &frontier[i];
+                    // one pwrite per state: the record ends at the first newline (older, longer records may follow it)
+                    let mut rec = json!({"property": "C16", "symptom": "expansion-crashes-the-process", "case": {"entry": s.entry.name(), "attr": s.attr, "item": s.item, "reached_via": s.via, "depth": s.depth}}).to_string();
+                    rec.push('\n');
+                    let _ = f.write_all_at(rec.as_bytes(), 0);
+                }
                 let v = judge(&frontier[i]);
                 progress.fetch_add(1, Ordering::Relaxed);
                 current[w].0.store(0, Ordering::Relaxed);
                 out.lock().unwrap()[i] = Some(v);
+                }
             });
         }
         // watchdog
